@@ -8,6 +8,7 @@ import (
 	"flag"
 	"fmt"
 	"runtime"
+	"strings"
 	"sync"
 	"sync/atomic"
 	"time"
@@ -63,15 +64,53 @@ func queueWork(deadline time.Time) {
 }
 
 func adderWork(deadline time.Time) {
+	workers := runtime.GOMAXPROCS(0)
+	if workers < 8 {
+		workers = 8
+	}
 	for time.Now().Before(deadline) {
-		for _, ty := range []adder.Type{adder.JDKAdderType, adder.RandomCellAdderType, adder.AtomicAdderType, adder.MutexAdderType} {
+		// a fresh striped adder hammered from a common start: the table is created, attached to and
+		// re-allocated (4->8, 16->32, 64->128) while other goroutines probe and attach
+		for _, mk := range []func() (func(), func()){
+			func() (func(), func()) { a := adder.NewLongAdder(adder.JDKAdderType); return func() { a.Add(1) }, func() { a.Sum() } },
+			func() (func(), func()) { a := adder.NewFloat64Adder(adder.JDKF64AdderType); return func() { a.Add(1) }, func() { a.Sum() } },
+		} {
+			add, sum := mk()
+			var start, done sync.WaitGroup
+			start.Add(1)
+			done.Add(workers)
+			for w := 0; w < workers; w++ {
+				go func() {
+					defer done.Done()
+					start.Wait()
+					for i := 0; i < 400; i++ {
+						add()
+					}
+				}()
+			}
+			start.Done()
+			for i := 0; i < 4; i++ {
+				sum()
+				runtime.Gosched()
+			}
+			fin := make(chan struct{})
+			go func() { done.Wait(); close(fin) }()
+			select {
+			case <-fin:
+			case <-time.After(10 * time.Second):
+				fmt.Println("HANG adder.Add never returned (adder wedged)")
+				return
+			}
+			atomic.AddInt64(&rounds, 1)
+		}
+		for _, ty := range []adder.Type{adder.RandomCellAdderType, adder.AtomicAdderType, adder.MutexAdderType} {
 			a := adder.NewLongAdder(ty)
 			var wg sync.WaitGroup
-			for g := 0; g < 12; g++ {
+			for g := 0; g < 8; g++ {
 				wg.Add(1)
 				go func(g int) {
 					defer wg.Done()
-					for i := 0; i < 300; i++ {
+					for i := 0; i < 200; i++ {
 						a.Add(int64(i))
 						if i%7 == 0 {
 							a.Sum()
@@ -84,24 +123,22 @@ func adderWork(deadline time.Time) {
 			wg.Wait()
 			atomic.AddInt64(&rounds, 1)
 		}
-		for _, ty := range []adder.Type{adder.JDKF64AdderType, adder.AtomicF64AdderType} {
-			a := adder.NewFloat64Adder(ty)
-			var wg sync.WaitGroup
-			for g := 0; g < 12; g++ {
-				wg.Add(1)
-				go func() {
-					defer wg.Done()
-					for i := 0; i < 300; i++ {
-						a.Add(1)
-						if i%5 == 0 {
-							a.Sum()
-						}
+		a := adder.NewFloat64Adder(adder.AtomicF64AdderType)
+		var wg sync.WaitGroup
+		for g := 0; g < 8; g++ {
+			wg.Add(1)
+			go func() {
+				defer wg.Done()
+				for i := 0; i < 200; i++ {
+					a.Add(1)
+					if i%5 == 0 {
+						a.Sum()
 					}
-				}()
-			}
-			wg.Wait()
-			atomic.AddInt64(&rounds, 1)
+				}
+			}()
 		}
+		wg.Wait()
+		atomic.AddInt64(&rounds, 1)
 	}
 }
 
@@ -232,10 +269,23 @@ func retryWork(deadline time.Time) {
 
 func main() {
 	secs := flag.Int("secs", 10, "seconds to run")
+	focus := flag.String("focus", "", "comma-separated packages to concentrate on (adder,queue,circuit-breaker,worker-pool,retry)")
 	flag.Parse()
 	deadline := time.Now().Add(time.Duration(*secs) * time.Second)
 	var wg sync.WaitGroup
-	for _, f := range []func(time.Time){queueWork, adderWork, adderWork, breakerWork, poolWork, retryWork} {
+	work := []func(time.Time){queueWork, adderWork, adderWork, breakerWork, poolWork, retryWork}
+	if *focus != "" {
+		by := map[string]func(time.Time){"queue": queueWork, "adder": adderWork, "circuit-breaker": breakerWork, "worker-pool": poolWork, "retry": retryWork}
+		work = nil
+		for _, name := range strings.Split(*focus, ",") {
+			if f, ok := by[name]; ok {
+				for i := 0; i < 4; i++ {
+					work = append(work, f)
+				}
+			}
+		}
+	}
+	for _, f := range work {
 		wg.Add(1)
 		go func(f func(time.Time)) { defer wg.Done(); f(deadline) }(f)
 	}
